@@ -102,6 +102,8 @@ pub fn jobs(id: &str, thorough: bool) -> Vec<Job> {
                 v.push(w(scen::s_hist(k, 0, false), p, if thorough { 3 } else { 2 }, false));
             }
             v.push(w(scen::s_two_hashes(), p, if thorough { 3 } else { 2 }, true));
+            v.push(w(scen::s_hash_mixed(false), p, if thorough { 3 } else { 2 }, false));
+            v.push(w(scen::s_hash_mixed(true), p, if thorough { 3 } else { 2 }, false));
         }
         "C02" => v = life_jobs(&["C02"], thorough, true),
         "C05" => v = life_jobs(&["C05"], thorough, false),
